@@ -98,6 +98,7 @@ type Input struct {
 	AcctsErr  bool     `json:"accts_err,omitempty"`
 	Fires     []Fire   `json:"fires,omitempty"`
 	Agg       *Agg     `json:"agg,omitempty"`
+	Hist      []HOp    `json:"hist,omitempty"` // a history on one controller (hist_test.go); the call fields above are unused
 	Tags      []string `json:"tags,omitempty"`
 }
 
@@ -547,6 +548,7 @@ type observed struct {
 	Subs     []Duty    `json:"subs"`
 	Fires    []fireObs `json:"fires"`
 	Agg      *[]string `json:"agg"`
+	Hist     []histObs `json:"hist,omitempty"`
 	Panic    string    `json:"panic,omitempty"`
 	aggObs   *[]contribObs
 }
@@ -612,6 +614,9 @@ func runCase(t *testing.T, in *Input) (obs observed) {
 			obs.Panic = fmt.Sprint(r)
 		}
 	}()
+	if len(in.Hist) > 0 {
+		return runHist(t, in)
+	}
 	ctx := context.Background()
 	e := &env{in: in}
 	ct := mocks.NewChainTime(in.Par.SPE)
@@ -717,36 +722,62 @@ func runCase(t *testing.T, in *Input) (obs observed) {
 	obs.Jobs = snapshotJobs(ct, sched)
 
 	for k := range in.Fires {
-		f := &in.Fires[k]
-		e.fire = f
-		e.selCall, e.rootCall, e.submitted, e.contribs = nil, nil, nil, nil
-		var fo fireObs
-		if f.Slot > 0 {
-			ct.SetSlot(f.Slot - 1)
-		}
-		if sched.Fire(ctx, jobName(0, f.Slot)) {
-			fo.SelCall = e.selCall
-			if j, ok := sched.Get(jobName(1, f.Slot)); ok {
-				tm := int64(j.Time.Sub(ct.Genesis))
-				fo.MsgJob = &tm
-				ct.SetSlot(f.Slot)
-				sched.Fire(ctx, jobName(1, f.Slot))
-				if e.rootCall != nil {
-					fo.RootCall = &rootCallObs{Accts: e.rootCall.accts, Epoch: e.rootCall.epoch, Root: e.rootCall.root}
-				}
-				fo.Submitted = e.submitted
-				if j, ok := sched.Get(jobName(2, f.Slot)); ok {
-					tm := int64(j.Time.Sub(ct.Genesis))
-					fo.AggJob = &tm
-					sched.Fire(ctx, jobName(2, f.Slot))
-					fo.Contribs = e.contribs
-					fo.ContribsS = contribTerms(e.contribs)
-				}
-			}
-		}
+		fo := fireSlot(ctx, e, ct, sched, &in.Fires[k], nil, 0)
 		obs.Fires = append(obs.Fires, fo)
 	}
 	return obs
+}
+
+// fireSlot runs the jobs of one slot in turn, as the scheduler would when their times arrive:
+// prepare (during the previous slot), message, aggregation.
+func fireSlot(ctx context.Context, e *env, ct *mocks.ChainTime, sched *mocks.RecScheduler, f *Fire, mid func(), midStage int) fireObs {
+	e.fire = f
+	e.selCall, e.rootCall, e.submitted, e.contribs = nil, nil, nil, nil
+	var fo fireObs
+	if f.Slot > 0 {
+		ct.SetSlot(f.Slot - 1)
+	}
+	prepared := sched.Fire(ctx, jobName(0, f.Slot))
+	var msgJob *mocks.Job
+	if prepared {
+		msgJob, _ = sched.Get(jobName(1, f.Slot))
+	}
+	if mid != nil && midStage != 2 {
+		// something else happens between the slot's prepare job and its message job
+		mid()
+		e.fire = f
+	}
+	if prepared {
+		fo.SelCall = e.selCall
+		if j := msgJob; j != nil {
+			tm := int64(j.Time.Sub(ct.Genesis))
+			fo.MsgJob = &tm
+			ct.SetSlot(f.Slot)
+			sched.Fire(ctx, jobName(1, f.Slot))
+			if e.rootCall != nil {
+				fo.RootCall = &rootCallObs{Accts: e.rootCall.accts, Epoch: e.rootCall.epoch, Root: e.rootCall.root}
+			}
+			fo.Submitted = e.submitted
+			aggJob, ok := sched.Get(jobName(2, f.Slot))
+			if mid != nil && midStage == 2 {
+				// ... or between its message job and its aggregation job
+				mid()
+				e.fire = f
+				mid = nil
+			}
+			if j := aggJob; ok {
+				tm := int64(j.Time.Sub(ct.Genesis))
+				fo.AggJob = &tm
+				sched.Fire(ctx, jobName(2, f.Slot))
+				fo.Contribs = e.contribs
+				fo.ContribsS = contribTerms(e.contribs)
+			}
+		}
+	}
+	if mid != nil && midStage == 2 {
+		mid() // the slot's chain ended before the aggregation stage: the operation still takes place
+	}
+	return fo
 }
 
 // ---------------------------------------------------------------------------------------------
@@ -796,10 +827,23 @@ func dutyValidators(in *Input) []uint64 {
 func fireInTerm(in *Input, f *Fire) string {
 	// hash8 of the selection proof the signer hands out for every member and every subcommittee
 	e := &env{in: in, fire: f}
+	// (for the subcommittees of the member's positions: the only entries the model and the
+	// predicate look up)
 	var table []string
+	per := in.Par.Size / in.Par.Subnets
 	for _, v := range dutyValidators(in) {
 		for c := uint64(0); c < in.Par.Subnets; c++ {
-			table = append(table, "("+N(v)+", "+N(c)+", "+N(hash8(e.selSig(v, f.Slot, c)))+")")
+			used := false
+			for _, d := range in.Duties {
+				for _, pos := range d.Pos {
+					if d.V == v && per > 0 && pos/per == c {
+						used = true
+					}
+				}
+			}
+			if used {
+				table = append(table, "("+N(v)+", "+N(c)+", "+N(hash8(e.selSig(v, f.Slot, c)))+")")
+			}
 		}
 	}
 	return Record("f_slot", N(f.Slot), "f_root", OptN(f.Root), "f_sel_err", Bool(f.SelErr), "f_sel_zero", listN(f.SelZero),
@@ -828,19 +872,31 @@ func fireOutTerm(o *fireObs) string {
 		"o_agg_job", optZ(o.AggJob), "o_contribs", optList(o.ContribsS))
 }
 
+func schedInTerm(epoch, cur uint64, notCur bool, indices []uint64, ds []Duty, dutiesErr bool, as []uint64, acctsErr bool) string {
+	duties, accts := Some(dutyTerms(ds)), Some(listN(as))
+	if dutiesErr {
+		duties = None()
+	}
+	if acctsErr {
+		accts = None()
+	}
+	return Record("si_epoch", N(epoch), "si_cur", N(cur), "si_notcur", Bool(notCur), "si_indices", listN(indices),
+		"si_duties", duties, "si_accts", accts)
+}
+
+func jobTerms(js []jobObs) string {
+	jobs := make([]string, 0, len(js))
+	for _, j := range js {
+		jobs = append(jobs, "("+N(j.Kind)+", "+N(j.Slot)+", "+Z(j.T)+")")
+	}
+	return List(jobs)
+}
+
 func term(id uint64, in *Input, obs *observed) string {
 	p := in.Par
 	par := Record("spe", N(p.SPE), "epp", N(p.EPP), "fork", N(p.Fork), "slot_ns", Z(p.SlotNs), "msg_delay", Z(p.MsgDelay),
 		"agg_delay", Z(p.AggDelay), "csize", N(p.Size), "subnets", N(p.Subnets), "target", N(p.Target))
-	duties, accts := Some(dutyTerms(in.Duties)), Some(listN(in.Accts))
-	if in.DutiesErr {
-		duties = None()
-	}
-	if in.AcctsErr {
-		accts = None()
-	}
-	sin := Record("si_epoch", N(in.Epoch), "si_cur", N(in.Cur), "si_notcur", Bool(in.NotCur), "si_indices", listN(in.Indices),
-		"si_duties", duties, "si_accts", accts)
+	sin := schedInTerm(in.Epoch, in.Cur, in.NotCur, in.Indices, in.Duties, in.DutiesErr, in.Accts, in.AcctsErr)
 	fires := make([]string, 0, len(in.Fires))
 	for k := range in.Fires {
 		fires = append(fires, fireInTerm(in, &in.Fires[k]))
@@ -869,7 +925,9 @@ func term(id uint64, in *Input, obs *observed) string {
 			"a_head", OptN(a.Head), "a_contrib_err", listN(a.ContribErr), "a_cp_err", Bool(a.CPErr))
 		agg = Some(Pair(ain, optList(obs.Agg)))
 	}
-	return Record("c_id", N(id), "c_par", par, "c_in", sin, "c_fires", List(fires), "c_out", sout, "c_fouts", List(fouts), "c_agg", agg)
+	hist, hobs := histTerms(in, obs)
+	return Record("c_id", N(id), "c_par", par, "c_in", sin, "c_fires", List(fires), "c_out", sout, "c_fouts", List(fouts), "c_agg", agg,
+		"c_hist", hist, "c_hruns", hobs)
 }
 
 // ---------------------------------------------------------------------------------------------
@@ -933,6 +991,9 @@ func genParams(r *Rand) Params {
 }
 
 func gen(r *Rand) Input {
+	if r.Chance(1, 5) {
+		return genHist(r)
+	}
 	if r.Chance(1, 6) {
 		return genAgg(r)
 	}
@@ -1204,79 +1265,84 @@ func gen(r *Rand) Input {
 		tag("fire:outside-window")
 	}
 	for _, s := range slots {
-		root := uint64(r.Range(1, 1000))
-		f := Fire{Slot: s, Root: &root, Salt: r.U64() % 100000}
-		if r.Chance(1, 25) {
-			f.Root = nil
-			tag("fault:head-root")
-		}
-		if r.Chance(1, 25) {
-			f.SelErr = true
-			tag("fault:selection-signer")
-		}
-		if r.Chance(1, 25) {
-			f.RootErr = true
-			tag("fault:root-signer")
-		}
-		if r.Chance(1, 25) {
-			f.SubmitErr = true
-			tag("fault:submit")
-		}
-		if r.Chance(1, 25) {
-			f.CPErr = true
-			tag("fault:contribution-signer")
-		}
-		if r.Chance(1, 12) {
-			f.ContribErr = append(f.ContribErr, uint64(r.Intn(int(p.Subnets))))
-			tag("fault:contribution-fetch")
-		}
-		zero := 0
-		for _, v := range vs {
-			if r.Chance(1, 7) {
-				f.RootZero = append(f.RootZero, v)
-				zero++
-			}
-			if r.Chance(1, 20) {
-				f.SelZero = append(f.SelZero, v)
-				tag("zero-selection-proof")
-			}
-		}
-		if len(vs) == 3 && zero == 0 && r.Chance(1, 4) {
-			f.RootZero = []uint64{vs[r.Intn(3)]}
-			zero = 1
-		}
-		if zero > 0 {
-			tag("zero-signature")
-		}
-		if zero > 0 && zero == len(vs) {
-			tag("zero-signature:all")
-		}
-		if r.Chance(1, 2) {
-			// look for a salt that selects at least one aggregator among the members' subcommittees
-			mod := p.Size / p.Subnets / p.Target
-			if mod < 1 {
-				mod = 1
-			}
-			e := &env{in: &in}
-			for try := 0; try < 64; try++ {
-				e.fire = &f
-				hit := false
-				for _, d := range in.Duties {
-					for _, pos := range d.Pos {
-						if hash8(e.selSig(d.V, s, pos/(p.Size/p.Subnets)))%mod == 0 {
-							hit = true
-						}
-					}
-				}
-				if hit {
-					break
-				}
-				f.Salt++
-			}
-		}
-		in.Fires = append(in.Fires, f)
+		in.Fires = append(in.Fires, genFire(r, p, s, vs, in.Duties, tag))
 	}
 	return in
+}
+
+// genFire scripts the environment of one fired slot.
+func genFire(r *Rand, p Params, s uint64, vs []uint64, duties []Duty, tag func(string)) Fire {
+	root := uint64(r.Range(1, 1000))
+	f := Fire{Slot: s, Root: &root, Salt: r.U64() % 100000}
+	if r.Chance(1, 25) {
+		f.Root = nil
+		tag("fault:head-root")
+	}
+	if r.Chance(1, 25) {
+		f.SelErr = true
+		tag("fault:selection-signer")
+	}
+	if r.Chance(1, 25) {
+		f.RootErr = true
+		tag("fault:root-signer")
+	}
+	if r.Chance(1, 25) {
+		f.SubmitErr = true
+		tag("fault:submit")
+	}
+	if r.Chance(1, 25) {
+		f.CPErr = true
+		tag("fault:contribution-signer")
+	}
+	if r.Chance(1, 12) {
+		f.ContribErr = append(f.ContribErr, uint64(r.Intn(int(p.Subnets))))
+		tag("fault:contribution-fetch")
+	}
+	zero := 0
+	for _, v := range vs {
+		if r.Chance(1, 7) {
+			f.RootZero = append(f.RootZero, v)
+			zero++
+		}
+		if r.Chance(1, 20) {
+			f.SelZero = append(f.SelZero, v)
+			tag("zero-selection-proof")
+		}
+	}
+	if len(vs) == 3 && zero == 0 && r.Chance(1, 4) {
+		f.RootZero = []uint64{vs[r.Intn(3)]}
+		zero = 1
+	}
+	if zero > 0 {
+		tag("zero-signature")
+	}
+	if zero > 0 && zero == len(vs) {
+		tag("zero-signature:all")
+	}
+	if r.Chance(1, 2) {
+		// look for a salt that selects at least one aggregator among the members' subcommittees
+		mod := p.Size / p.Subnets / p.Target
+		if mod < 1 {
+			mod = 1
+		}
+		e := &env{}
+		for try := 0; try < 64; try++ {
+			e.fire = &f
+			hit := false
+			for _, d := range duties {
+				for _, pos := range d.Pos {
+					if hash8(e.selSig(d.V, s, pos/(p.Size/p.Subnets)))%mod == 0 {
+						hit = true
+					}
+				}
+			}
+			if hit {
+				break
+			}
+			f.Salt++
+		}
+	}
+	return f
 }
 
 func genAgg(r *Rand) Input {
@@ -1337,8 +1403,12 @@ func genAgg(r *Rand) Input {
 func TestC15(t *testing.T) {
 	col := NewCollector("C15", "Check.C15",
 		"a call of scheduleSyncCommitteeMessages (period, clock position, fork epoch, spe/epp 1-8, 0-4 members, account subset) followed by the "+
-			"prepare/message/aggregation jobs of up to 4 slots under scripted signer/node/submitter behaviour, or a direct Aggregate call; "+
+			"prepare/message/aggregation jobs of up to 4 slots under scripted signer/node/submitter behaviour, or a direct Aggregate call, "+
+			"or a history of 3-9 operations on one controller and one scheduler (calls for this and the next period, refreshes of a "+
+			"period's duties directly or through head events with a changed dependent root, slots fired in between); "+
 			"non-trivial = at least one sync committee message or contribution was submitted by the implementation; distinct by full case text")
+	// reading a case costs coqc far more than evaluating it; smaller shards are read in parallel
+	col.ShardSize = 160
 	n := EnvInt("VERIF_N", 600)
 	var ins []Input
 	for _, in := range LoadInputs[Input]("C15") {
@@ -1371,7 +1441,13 @@ func TestC15(t *testing.T) {
 		if obs.aggObs != nil && len(*obs.aggObs) > 0 {
 			nt = true
 		}
-		for _, f := range obs.Fires {
+		fired := append([]fireObs{}, obs.Fires...)
+		for _, h := range obs.Hist {
+			if h.Fire != nil {
+				fired = append(fired, *h.Fire)
+			}
+		}
+		for _, f := range fired {
 			if f.Submitted != nil && len(*f.Submitted) > 0 {
 				nt = true
 				col.Count("fired:messages-submitted")
@@ -1388,6 +1464,7 @@ func TestC15(t *testing.T) {
 			col.Note(fmt.Sprintf("case %d: panic: %s", col.NextID(), obs.Panic))
 			// drop the unfinished observation: the lists no longer line up, which fails both checks
 			obs.Fires = nil
+			obs.Hist = nil
 			obs.Jobs = append(obs.Jobs, jobObs{Kind: 99})
 			if in.Agg != nil {
 				bad := []string{"{| cp_agg := 0; cp_slot := 0; cp_subc := 0; cp_root := 0; cp_proof := SgBad; cp_sig := SgBad |}"}
@@ -1396,6 +1473,15 @@ func TestC15(t *testing.T) {
 		}
 		if in.Agg != nil {
 			col.Count("kind:aggregate-direct")
+		} else if len(in.Hist) > 0 {
+			col.Count("kind:history")
+			col.Count(fmt.Sprintf("history-ops:%d", len(in.Hist)))
+			for _, op := range in.Hist {
+				col.Count("history-op:" + op.Kind)
+				if op.Kind == "refresh" && op.ViaHead {
+					col.Count("history-op:refresh-via-head-events")
+				}
+			}
 		} else {
 			col.Count("kind:chain")
 			col.Count(fmt.Sprintf("members:%d", len(dutyValidators(in))))
